@@ -319,6 +319,12 @@ def main():
                     for s in states:
                         if getattr(s, 'DescriptorHandle', None) == metric and not s.is_context_state:
                             seen[metric] = s.StateVersion
+                        elif s.is_context_state and s.Handle == 'p1':
+                            seen['p1'] = s.StateVersion        # GetMdib carries the context states too
+                    descrs = res.result[0]
+                    for d in descrs:
+                        if d.Handle == metric:
+                            seen['descr'] = d.DescriptorVersion
                 elif name == 'GetMdStateGen':
                     seen['gen_exists'] = any(s.DescriptorHandle == GEN for s in res.result.MdState.State)
                 elif name.startswith('GetMdState'):
